@@ -15,9 +15,9 @@ COQ_DIRS = ['C01']
 MODEL_TARGETS = ['theories/C04/Run.vo']
 PROOF_TARGETS = ['theories/C04/Properties.vo']
 PROPERTIES_V = 'theories/C04/Properties.v'
-IMPORTS = 'Require Import FV.Base.F64 FV.Base.PyVal FV.C01.Model FV.Gen.C04 FV.C04.Model FV.C04.Run.'
-CASE_TYPE = 'case'
-CHECK = 'check_case'
+IMPORTS = 'Require Import FV.Base.F64 FV.Base.PyVal FV.C01.Model FV.Gen.C04 FV.C04.Model FV.C04.ConcModel FV.C04.Run.'
+CASE_TYPE = 'xcase'
+CHECK = 'check_xcase'
 SHARD_SIZE = 100
 RULE = ('a generated module class (two class levels built with type(): 1-4 parameters over int/float/scaled/bool/enum/string/'
         'array/tuple/struct datatypes with readonly/constant/export(True, False, custom name) flags and optional '
@@ -31,9 +31,24 @@ RULE = ('a generated module class (two class levels built with type(): 1-4 param
         'fake driver follows a script per request (returns None / Done / a read-back value / raises HardwareError, RangeError, '
         'ZeroDivisionError).  Compared with the model after every request: reply class, driver calls with their values, hook '
         'calls, emitted updates, whole parameter cache.  non-trivial = at least one request passed the name and access tests '
-        '(validation, limits, hooks or driver decided); distinct = distinct (module, requests).')
+        '(validation, limits, hooks or driver decided); distinct = distinct (module, requests).  CONCURRENT cases (kind conc): '
+        'one module with 2 numeric parameters, limit parameters and hooks; 2-3 REAL threads under the deterministic scheduler '
+        'harness/dsched.py, each executing 1-2 operations: a change request through the real Dispatcher.handle_request '
+        '(connection thread) or a direct call of a write wrapper write_<p>(v) (internal thread) on the parameter, on one of its '
+        'limit parameters or on the parameter a hook compares with; switch points: acquire of Dispatcher._lock and of the '
+        'module accessLock (both replaced by scheduler RLocks), every check_<p> hook call, every checkLimits call, every driver '
+        'call, thread start/join; schedules: explicit per-step choices (random) and, for a family of small scenarios (request '
+        'for a = 5 against a limit being moved so that 5 becomes forbidden / a hook operand being moved), ALL schedules with at '
+        'most one preemption (dsched.explore).  The driver records the parameter cache at the moment it is called.  Compared '
+        'with the concurrent model event by event (lock acquisitions, check calls with values, driver calls with value and '
+        'cache, updates, results, final cache); non-trivial = at least one driver/check event; distinct = distinct (module, '
+        'thread programs, executed schedule).')
 ASSUMPTIONS = [
-    'one module per node, requests are handled one at a time (Dispatcher._lock / accessLock not exercised), omit_unchanged_within = 0',
+    'one module per node, omit_unchanged_within = 0; sequential cases handle requests one at a time; concurrent cases: threads '
+    'interleave at synchronisation points only (lock acquisitions, check/driver calls made switch points by the harness), not '
+    'between two bytecodes; the module state is changed only through write wrappers (change requests, internal write_<p> calls): '
+    'direct attribute assignments by user code outside a wrapper, read wrappers and pollers are not part of the concurrent model; '
+    'no wrapper is called from inside a wrapper (the re-entrancy of the RLock is not modelled)',
     'datatypes restricted to int, float, scaled, bool, enum, string, array, tuple, struct (no blob); payloads are JSON kinds; '
     'numbers offered to scaled types stay below 1e30 (representability guard of C01 validate_total)',
     'limit parameters (<p>_min, <p>_max, <p>_limits in every combination) only on int/float/scaled parameters',
@@ -109,6 +124,8 @@ class _Log:
 
 
 class _Rec:
+    sched = None                 # concurrent cases: the dsched scheduler (driver and hook calls are switch points)
+
     def __init__(self):
         self.drv, self.hooks, self.upd = [], [], []
         self.cur = None
@@ -132,6 +149,9 @@ class _Rec:
 
 def _make_write(rec, name):
     def w(self, value):
+        if rec.sched is not None:
+            rec.sched.switch('driver:' + name)
+            rec.log('drv', name, G.tag(value), rec.snapshot())      # value and the module's cache at this very moment
         rec.drv.append(['write', name, G.tag(value)])
         return rec.behave()
     w.__name__ = 'write_' + name
@@ -141,6 +161,9 @@ def _make_write(rec, name):
 def _make_hook(rec, h):
     def hk(self, value):
         from frappy.errors import RangeError
+        if rec.sched is not None:
+            rec.sched.switch('hook:%d' % h['id'])
+            rec.log('hook', h['id'], G.tag(value))
         rec.hooks.append([h['id'], G.tag(value)])
         c = h['cond']
         hit = c[0] == 'always' or (c[0] == 'gt' and value > getattr(self, c[1]))
@@ -223,7 +246,7 @@ def run_case(case):
     hmod.formatException = hmod.formatExtendedStack = hmod.formatExtendedTraceback = lambda *a, **k: ''
     try:
         with contextlib.redirect_stdout(io.StringIO()):
-            return _run(case)
+            return _run_conc(case) if is_conc(case) else _run(case)
     finally:
         hmod.formatException, hmod.formatExtendedStack, hmod.formatExtendedTraceback = fmt
         generalConfig._config = saved
@@ -415,6 +438,12 @@ def enc_obs(st):
 
 
 def encode(case, obs):
+    if is_conc(case):
+        return enc_conc(case, obs)
+    return f'(XSeq {encode_seq(case, obs)})'
+
+
+def encode_seq(case, obs):
     if len(obs['steps']) != len(case['reqs']):
         raise ValueError(f"{len(obs['steps'])} replies for {len(case['reqs'])} requests")
     return ('{| c_env := %s; c_md := %s; c_hooks := %s; c_init := %s; c_reqs := %s; c_obs := %s |}' % (
@@ -423,7 +452,9 @@ def encode(case, obs):
 
 
 def model_result_term(case, obs):
-    return f'model_result ({encode(case, obs)})'
+    if is_conc(case):
+        return f'conc_result ({enc_conc(case, obs, wrap=False)})'
+    return f'model_result ({encode_seq(case, obs)})'
 
 
 # ------------------------------------------------------------------ direct oracle: the property on the observations
@@ -594,6 +625,12 @@ def auto_present(md, pname):
 
 
 def oracle(case, obs):
+    if is_conc(case):
+        return oracle_conc(case, obs)
+    return oracle_seq(case, obs)
+
+
+def oracle_seq(case, obs):
     from harness.props import C01
     md = case['mod']
     fails = []
@@ -795,6 +832,10 @@ FINDING_CLASSIFIERS = {}
 
 # ------------------------------------------------------------------ bookkeeping
 def nontrivial_key(case, obs):
+    if is_conc(case):
+        if any(ev[1] in ('drv', 'hook', 'auto') for ev in obs['events']):
+            return repr((case['mod'], case['threads'], obs['decisions']))
+        return None
     for st in obs['steps']:
         if st['drv'] or st['hooks'] or st['reply'] in BADVALUE or (st['reply'] == 'ok'):
             return repr((case['mod'], case['reqs']))
@@ -802,6 +843,8 @@ def nontrivial_key(case, obs):
 
 
 def outcome_labels(case, obs):
+    if is_conc(case):
+        return conc_labels(case, obs)
     labs = set()
     for r, st in zip(case['reqs'], obs['steps']):
         labs.add(f"{r['act']}:{st['reply']}")
@@ -819,6 +862,9 @@ def outcome_labels(case, obs):
 
 
 def sample_repr(case, obs):
+    if is_conc(case):
+        return {'module': case['mod'], 'threads': [[_show_op(o) for o in ops] for ops in case['threads']],
+                'schedule': obs['decisions'], 'events': [ev[:4] for ev in obs['events']]}
     return {'module': case['mod'], 'requests': [_show(r) + ' drv=' + str(r['drv'][0]) for r in case['reqs']],
             'replies': [[st['reply'], st['drv'], st['upd']] for st in obs['steps']]}
 
@@ -1174,10 +1220,19 @@ def gen_cases(seed, tier):
     ex = list(exhaustive_cases())
     if tier == 'quick':
         ex = ex[::3]
-    return cases + ex
+    return cases + ex + gen_conc(seed, tier)
+
+
+def search_cases(seed, mismatching):
+    """obligations are broken and no generated case failed the oracle: the concurrent scenarios with more schedules first
+    (a broken lock discipline only shows under an interleaving), then the thorough sequential budget"""
+    return gen_conc(seed + 7919, 'search') + gen_cases(seed + 7919, 'thorough')
 
 
 def shrink(case):
+    if is_conc(case):
+        yield from shrink_conc(case)
+        return
     reqs = case['reqs']
     for i in range(len(reqs) - 1, -1, -1):
         yield dict(case, reqs=reqs[:i] + reqs[i + 1:])
@@ -1190,3 +1245,522 @@ def shrink(case):
         if any(lim['base'] == n for lim in md['limits']) or any(h['param'] == n or h['cond'][-1] == n for h in md['hooks']):
             continue
         yield dict(case, mod=dict(md, params=md['params'][:i] + md['params'][i + 1:]))
+
+
+# ====================================================================== concurrent cases (real threads under harness/dsched.py)
+# case = {'kind': 'conc', 'mod': <module descriptor>, 'threads': [[op, ...], ...], 'sched': {...}}
+#   op = {'k': 'req', 'mod', 'acc', 'data', 'drv'}       change request through Dispatcher.handle_request (connection thread)
+#      | {'k': 'write', 'attr', 'value', 'drv'}           direct call m.write_<attr>(value)             (internal thread)
+#   sched = {'kind': 'choices', 'choices': [i0, i1, ...]}  step n runs enabled[i_n % len(enabled)], afterwards non-preemptive
+#         | {'kind': 'explicit', 'decisions': [names]}     thread name per step (from dsched.explore); a named thread that is
+#                                                          not enabled is replaced by the non-preemptive choice
+MAX_EVENTS = 400
+
+
+def is_conc(case):
+    return case.get('kind') == 'conc'
+
+
+class _LoggedLock:
+    """a scheduler RLock (acquire = synchronisation point) that reports every outermost acquisition after it took effect"""
+
+    def __init__(self, sched, name, on_acquire, reentrant=True):
+        self.l = sched.RLock() if reentrant else sched.Lock()
+        self.l.name = name
+        self.depth = 0
+        self.on_acquire = on_acquire
+        self.contended = 0          # acquisitions that found the lock held by another thread (the caller had to wait)
+
+    def acquire(self, blocking=True, timeout=-1):
+        if self.l.owner is not None and self.l.owner is not self.l.s.current:
+            self.contended += 1
+        ok = self.l.acquire(blocking, timeout)
+        if ok:
+            self.depth += 1
+            if self.depth == 1:
+                self.on_acquire()
+        return ok
+
+    def release(self):
+        self.depth -= 1
+        self.l.release()
+
+    def __enter__(self):
+        return self.acquire()
+
+    def __exit__(self, *a):
+        self.release()
+
+
+class _CRec(_Rec):
+    """recorder of a concurrent run: one global event list (only one thread runs at a time)"""
+
+    def __init__(self, sched):
+        super().__init__()
+        self.sched = sched
+        self.events = []
+        self.curd = {}
+        self.snapshot = lambda: []
+
+    def tid(self):
+        n = getattr(self.sched.current, 'name', '')
+        return int(n[1:]) if n[:1] == 'w' and n[1:].isdigit() else -1
+
+    def log(self, kind, *data):
+        if len(self.events) < MAX_EVENTS:
+            self.events.append([self.tid(), kind, *data])
+
+    def behave(self):
+        self.cur = self.curd.get(self.tid()) or ['none']
+        return super().behave()
+
+
+class _Follow:
+    """explicit schedule that cannot diverge: the named thread if it is enabled, else (and afterwards) non-preemptive -
+    a replay recorded on another tree stays executable (e.g. the named thread now waits for a lock)"""
+
+    def __init__(self, decisions):
+        self.decisions = list(decisions)
+
+    def __call__(self, n, enabled, current):
+        if n < len(self.decisions) and self.decisions[n] in enabled:
+            return self.decisions[n]
+        return current if current in enabled else enabled[0]
+
+
+def _policy(spec):
+    from harness import dsched
+    if spec['kind'] == 'explicit':
+        return _Follow(spec['decisions'])
+    return dsched.Preempt({i: c for i, c in enumerate(spec['choices'])})
+
+
+def _run_conc(case, want_result=False):
+    from frappy.errors import SECoPError
+    from frappy.protocol.dispatcher import Dispatcher
+    from frappy.secnode import SecNode
+    from harness import dsched
+    md = case['mod']
+    s = dsched.Scheduler(_policy(case['sched']), max_steps=1500)
+    rec = _CRec(s)
+    cls = build_class(md, rec)
+
+    class Srv:
+        restart = shutdown = None
+        module_cfg = {}
+        detailed_errors = False
+
+        def __init__(self):
+            self.log = _Log()
+            self.secnode = SecNode('node', _Log(), {}, self)
+            self.dispatcher = Dispatcher('dispatcher', _Log(), {}, self)
+
+    srv = Srv()
+    m = cls(md['name'], _Log(), {'description': 'x', 'export': bool(md['export'])}, srv)
+    srv.secnode.add_module(m, md['name'])
+    for lim in md['limits']:
+        if lim['init'] is not None:
+            setattr(m, f"{lim['base']}_{lim['postfix']}", G.untag(lim['init']))
+    rec.snapshot = lambda: sorted([n, G.tag(p.value)] for n, p in m.parameters.items())
+
+    # the two locks of the request path become scheduler locks; updateLock stays a real RLock: nothing inside
+    # announceUpdate is a switch point, so it is never held while another thread runs
+    # (only a real RLock is replaced: if the code under test made one of them something else, e.g. a dummy context
+    # manager, it is left alone and the missing exclusion shows at the check/driver switch points)
+    import threading
+    kinds = {type(threading.RLock()): True, type(threading.Lock()): False}     # a plain Lock would block for real
+    if type(m.accessLock) in kinds:
+        m.accessLock = _LoggedLock(s, 'accessLock', lambda: rec.log('acq'), kinds[type(m.accessLock)])
+    if type(srv.dispatcher._lock) in kinds:
+        srv.dispatcher._lock = _LoggedLock(s, 'dispatcherLock', lambda: rec.log('req'), kinds[type(srv.dispatcher._lock)])
+    orig_check_limits = m.checkLimits
+
+    def check_limits(value, pname='target'):
+        s.switch('checkLimits:' + pname)
+        rec.log('auto', pname, G.tag(value))
+        return orig_check_limits(value, pname)
+    m.checkLimits = check_limits          # the generated lambda calls self.checkLimits(value, pname)
+
+    class Conn:
+        def send_reply(self, msg):
+            modname, _, ename = msg[1].partition(':')
+            attr = m.accessiblename2attr.get(ename)
+            pobj = m.parameters.get(attr)
+            if msg[0] != 'update' or pobj is None:
+                rec.log('bad', str(msg[0]))
+                return
+            consistent = modname == md['name'] and _jeq(msg[2][0], pobj.datatype.export_value(pobj.value))
+            rec.log('upd', attr, G.tag(pobj.value), bool(consistent))
+    conn = Conn()
+    srv.dispatcher._active_connections.add(conn)
+
+    names = all_params(md)
+    real_names = dict(m.accessiblename2attr)
+    want_names = {e: n for n, e, *_ in names if e is not None}
+    gd = {n: G.gal_dtype(d, m.parameters[n].datatype) for n, _e, d, *_ in names}
+    init = rec.snapshot()
+    threads = case['threads']
+
+    def worker(ti):
+        for op in threads[ti]:
+            rec.curd[ti] = op['drv']
+            try:
+                if op['k'] == 'req':
+                    spec = op['mod'] if op['acc'] is None else f"{op['mod']}:{op['acc']}"
+                    srv.dispatcher.handle_request(conn, ('change', spec, G.untag(op['data'])))
+                else:
+                    getattr(m, 'write_' + op['attr'])(G.untag(op['value']))
+                res = 'ok'
+            except SECoPError as e:
+                res = e.name
+            except Exception:
+                res = 'InternalError'
+            rec.log('end', res)
+
+    def main():
+        hs = [s.spawn(worker, f'w{ti}', ti) for ti in range(len(threads))]
+        for h in hs:
+            h.join()
+    res = s.run(main)
+    if want_result:
+        return res
+    if res.thread_errors or res.error:
+        raise RuntimeError(f'harness thread died: {res.thread_errors} {res.error}')
+    return {'status': res.status, 'decisions': list(res.decisions), 'events': rec.events, 'init': init,
+            'final': rec.snapshot(), 'gd': gd, 'names_ok': real_names == want_names,
+            'real_names': sorted(real_names.items()),
+            'blocked': getattr(res, 'blocked_at_end', {}) if res.status != 'ok' else {},
+            'contended': [getattr(m.accessLock, 'contended', 0), getattr(srv.dispatcher._lock, 'contended', 0)],
+            'env': G.pyenv_for([op['data'] for ops in threads for op in ops if op['k'] == 'req'])}
+
+
+# ------------------------------------------------------------------ encoding
+def enc_cop(op):
+    if op['k'] == 'req':
+        return f'(CReq {enc_req(dict(op, act="change"))})'
+    return f'(CWrite {gs(op["attr"])} {G.gal_val(op["value"])} {enc_drv(op["drv"])})'
+
+
+def enc_event(ev):
+    tid, kind = ev[0], ev[1]
+    t = gal.nat(tid if isinstance(tid, int) and 0 <= tid < 100 else 999)
+    e = 'OBad'
+    if kind == 'req':
+        e = 'OReq'
+    elif kind == 'acq':
+        e = 'OAcq'
+    elif kind == 'hook':
+        e = f'(OHook {gal.nat(ev[2])} {G.gal_val(ev[3])})'
+    elif kind == 'auto':
+        e = f'(OAuto {G.gal_val(ev[3])})'
+    elif kind == 'drv':
+        e = f'(ODrv {gs(ev[2])} {G.gal_val(ev[3])} {enc_cache(ev[4])})'
+    elif kind == 'upd' and ev[4]:
+        e = f'(OUpd {gs(ev[2])} {G.gal_val(ev[3])})'
+    elif kind == 'end':
+        if ev[2] == 'ok':
+            e = '(OEnd None)'
+        elif ev[2] in ERR_CLASSES:
+            e = f'(OEnd (Some {ev[2]}))'
+    return f'({t}, {e})'
+
+
+def enc_conc(case, obs, wrap=True):
+    body = ('{| cc_env := %s; cc_md := %s; cc_hooks := %s; cc_init := %s; cc_progs := %s; cc_events := %s; cc_final := %s |}' % (
+        G.gal_pyenv(obs['env']), enc_md(case['mod'], obs['gd']), gal.lst(case['mod']['hooks'], enc_hook),
+        enc_cache(obs['init']), gal.lst(case['threads'], lambda ops: gal.lst(ops, enc_cop)),
+        gal.lst(obs['events'], enc_event), enc_cache(obs['final'])))
+    return f'(XConc {body})' if wrap else body
+
+
+# ------------------------------------------------------------------ oracle (the property on the observed events)
+def _show_op(op):
+    if op['k'] == 'req':
+        return _show(dict(op, act='change')) + ' drv=' + str(op['drv'][0])
+    return f"write_{op['attr']}({G.untag(op['value'])!r}) drv={op['drv'][0]}"
+
+
+def oracle_conc(case, obs):
+    """whenever the driver's write_<p>(v) is invoked: v lies in the datainfo, denotes the requested value, satisfies the
+    dynamic limits and the check hooks AS THE MODULE HOLDS THEM AT THAT MOMENT (the cache recorded inside the driver call);
+    at most one driver call per operation; a refused/failed operation emits no update; a successful one exactly one"""
+    from harness.props import C01
+    md = case['mod']
+    fails = []
+
+    def fail(cls, what, **kw):
+        fails.append(dict({'class': cls, 'what': what}, **kw))
+
+    if obs['status'] != 'ok':
+        fail('run-' + obs['status'], f"the threads did not finish: {obs.get('blocked')}")
+        return fails
+    if not obs['names_ok']:
+        fail('export-map', f'wire names {obs["real_names"]} differ from the described ones')
+    params = {n: (e, d, ro, const, wr) for n, e, d, ro, const, wr in all_params(md)}
+    by_export = {e: n for n, (e, *_r) in params.items() if e is not None}
+    nthreads = len(case['threads'])
+    done = [[] for _ in range(nthreads)]
+    cur = [[] for _ in range(nthreads)]
+    for ev in obs['events']:
+        tid, kind = ev[0], ev[1]
+        if not (isinstance(tid, int) and 0 <= tid < nthreads) or kind == 'bad':
+            fail('foreign-event', f'event {ev[:3]} outside the threads of the case')
+            continue
+        if kind == 'upd' and not ev[4]:
+            fail('update-inconsistent', f'update message of {ev[2]} does not carry the cached value')
+        cur[tid].append(ev)
+        if kind == 'end':
+            done[tid].append(cur[tid])
+            cur[tid] = []
+    for ti, ops in enumerate(case['threads']):
+        if len(done[ti]) != len(ops) or cur[ti]:
+            fail('op-count', f'thread {ti}: {len(done[ti])} finished operations for {len(ops)}')
+            continue
+        for oi, (op, evs) in enumerate(zip(ops, done[ti])):
+            where = f'thread {ti} op {oi} ({_show_op(op)})'
+            res = evs[-1][2]
+            drvs = [e for e in evs if e[1] == 'drv']
+            upds = [e for e in evs if e[1] == 'upd']
+            if op['k'] == 'req':
+                ename = op['acc'] if op['acc'] is not None else 'target'
+                pname = by_export.get(ename) if op['mod'] == md['name'] else None
+                refuse = None
+                if pname is None:
+                    refuse = ['NoSuchModule'] if op['mod'] != md['name'] else ['NoSuchParameter']
+                elif params[pname][2] or params[pname][3]:
+                    refuse = ['ReadOnly']
+                if refuse:
+                    if drvs:
+                        fail('forbidden-request-reached-driver', f'{where}: driver calls {[e[2:4] for e in drvs]}')
+                    if res == 'ok':
+                        fail('forbidden-request-accepted', f'{where}: success reply')
+                    elif res not in refuse:
+                        fail('unfitting-error-class', f'{where}: answered {res}, fitting {refuse}')
+                    if upds:
+                        fail('refusal-not-clean', f'{where}: update emitted')
+                    continue
+                offered, mode = G.untag(op['data']), 'wire'
+            else:
+                pname = op['attr']
+                offered, mode = G.untag(op['value']), 'validate'
+            _e, d, _ro, _const, wr = params[pname]
+            if len(drvs) > 1 or any(e[2] != pname for e in drvs) or (drvs and not wr):
+                fail('wrong-driver-call', f'{where}: driver calls {[e[2:4] for e in drvs]}')
+                continue
+            for e in drvs:
+                w = _rebuild(d, e[3])
+                now = {n: _rebuild(params[n][1], t) for n, t in e[4]}          # the cache at the moment of the driver call
+                why = []
+                if not C01.in_set(d, w, why):
+                    fail('invalid-value-reached-driver', f'{where}: value {w!r} is outside the datainfo: {why[:1]}')
+                why = []
+                if not C01.denotes(d, offered, w, None, mode, why):
+                    fail('other-value-reached-driver', f'{where}: value {w!r} is not the requested one: {why[:1]}')
+                lv = limits_verdict(md, pname, w, now)
+                if lv == 'violated' and auto_present(md, pname) and not auto_skipped(md, pname, w, now):
+                    fail('limit-violated-at-driver-call',
+                         f'{where}: write_{pname}({w!r}) invoked while the module holds {_lims(md, pname, now)}')
+                hv = hooks_verdict(md, pname, w, now)
+                if hv in ('range', 'py'):
+                    fail('hook-ignored-at-driver-call',
+                         f'{where}: write_{pname}({w!r}) invoked although check_{pname} refuses it on the current state {now}')
+            if res != 'ok':
+                if upds:
+                    fail('failed-write-announced', f'{where}: answered {res} but an update was emitted')
+            else:
+                if wr and not drvs:
+                    fail('accepted-without-driver', f'{where}: success but write method not called')
+                quiet = wr and op['drv'][0] == 'done'
+                exported = params[pname][0] is not None
+                want = 0 if (quiet or not exported) else 1
+                if len(upds) != want or any(u[2] != pname for u in upds):
+                    fail('update-missing', f'{where}: updates {[u[2:4] for u in upds]}')
+                if upds and (op['drv'][0] == 'none' or not wr):
+                    written = drvs[0][3] if drvs else upds[0][3]
+                    if not C01._py_equal(upds[0][3], written):
+                        fail('cache-not-written-value', f'{where}: announced {upds[0][3]} after writing {written}')
+    return fails
+
+
+def conc_labels(case, obs):
+    labs = {'conc', f"conc:threads={len(case['threads'])}", 'conc:sched=' + case['sched']['kind']}
+    inside = None
+    for ev in obs['events']:
+        tid, kind = ev[0], ev[1]
+        if kind == 'acq':
+            inside = tid
+        elif kind == 'end':
+            if inside == tid:
+                inside = None
+            labs.add('conc:end=' + str(ev[2]))
+        elif kind == 'drv':
+            labs.add('conc:driver-called')
+        elif kind in ('hook', 'auto'):
+            labs.add('conc:' + kind)
+        if inside is not None and tid != inside:
+            labs.add('conc:other-thread-ran-while-wrapper-held-lock')
+    if obs['contended'][0]:
+        labs.add('conc:a-thread-waited-for-accessLock')
+    if obs['contended'][1]:
+        labs.add('conc:a-thread-waited-for-dispatcher-lock')
+    if any(op['k'] == 'req' for ops in case['threads'] for op in ops):
+        labs.add('conc:request-thread')
+    if any(op['k'] == 'write' for ops in case['threads'] for op in ops):
+        labs.add('conc:internal-thread')
+    return sorted(labs)
+
+
+# ------------------------------------------------------------------ generators
+def _limit_value(rng, d, postfix, wire):
+    if postfix == 'limits':
+        x, y = num_value(rng, d, wire), num_value(rng, d, wire)
+        if rng.random() < 0.85 and x > y:
+            x, y = y, x
+        return [x, y] if wire else (x, y)
+    return num_value(rng, d, wire)
+
+
+def rand_conc_case(rng):
+    d = rng.choice(NUMERIC_TYPES)
+    db = rng.choice(NUMERIC_TYPES)
+    pa = {'name': 'a', 'export': True if rng.random() < 0.9 else 'xa', 'd': d, 'readonly': rng.random() < 0.08, 'constant': None,
+          'write': rng.random() < 0.85, 'default': G.tag(in_range_value(rng, d))}
+    pb = {'name': 'b', 'export': True, 'd': db, 'readonly': False, 'constant': None, 'write': rng.random() < 0.4,
+          'default': G.tag(in_range_value(rng, db))}
+    limits = []
+    kinds = rng.choice([['max'], ['min'], ['min', 'max'], ['limits'], ['limits', 'max'], ['min', 'max'], []])
+    for k in kinds:
+        init = None
+        if rng.random() < 0.75:
+            init = G.tag(_limit_value(rng, d, k, False))
+        limits.append({'base': 'a', 'postfix': k, 'level': rng.randrange(2), 'export': True, 'init': init})
+    hooks = []
+    if rng.random() < 0.5:
+        for hid, level in enumerate(rng.choice([[0], [1], [0, 1]])):
+            r = rng.random()
+            cond = ['never'] if r < 0.1 else ['always'] if r < 0.25 else ['gt', 'b']
+            hooks.append({'id': hid, 'param': 'a', 'level': level, 'cond': cond, 'act': rng.choice(['range', 'range', 'stop', 'py'])})
+    md = {'name': 'm', 'export': True, 'params': [pa, pb], 'limits': limits, 'cmds': [], 'hooks': hooks}
+    params = all_params(md)
+    targets = [('a', 5)] + [(f"a_{k}", 4) for k in kinds] + [('b', 2 if hooks else 1)]
+    threads = []
+    for _ in range(rng.choice([2, 2, 2, 3])):
+        ops = []
+        for _ in range(rng.choice([1, 1, 2])):
+            attr = rng.choices([t for t, _ in targets], [w for _, w in targets])[0]
+            n, e, dd, ro, _const, wr = next(p for p in params if p[0] == attr)
+            base_d = d if attr != 'b' else db
+            postfix = attr[2:] if attr.startswith('a_') else None
+            has_wrapper = wr or not ro
+            if rng.random() < 0.55 or not has_wrapper:
+                if postfix:
+                    j = _limit_value(rng, base_d, postfix, True)
+                else:
+                    j = rand_payload(rng, base_d, True) if rng.random() < 0.2 else num_value(rng, base_d, True)
+                acc = e if rng.random() < 0.95 else rng.choice([attr, 'zz'])
+                ops.append({'k': 'req', 'mod': 'm' if rng.random() < 0.97 else 'q', 'acc': acc, 'data': G.tag(clean(dd, j, True)),
+                            'drv': rand_drv(rng, dd) if wr else ['none']})
+            else:
+                if postfix:
+                    v = _limit_value(rng, base_d, postfix, False)
+                else:
+                    v = num_value(rng, base_d, False)
+                    if rng.random() < 0.06:
+                        v = rng.choice(['x', None, 1e40, [1]])
+                ops.append({'k': 'write', 'attr': attr, 'value': G.tag(v), 'drv': rand_drv(rng, dd) if wr else ['none']})
+        threads.append(ops)
+    choices = [rng.randrange(3) for _ in range(rng.choice([12, 30, 50]))]
+    return {'kind': 'conc', 'mod': md, 'threads': threads, 'sched': {'kind': 'choices', 'choices': choices}}
+
+
+def scenario_bases():
+    """small scope: a : int 0..10 with one limit layout, b = 7; one thread requests a = 5 while another thread moves a limit
+    (or the operand of a hook) so that 5 becomes forbidden - through a request or through an internal write"""
+    d = {'t': 'int', 'min': 0, 'max': 10}
+    moves = {'max': ('a_max', 2), 'min': ('a_min', 8), 'limits': ('a_limits', (6, 9))}
+    for lay, level, mover, extra in [(['max'], 0, 'write', None), (['max'], 1, 'req', None), (['min'], 0, 'write', None),
+                                     (['limits'], 1, 'write', None), (['min', 'max'], 0, 'req', None),
+                                     (['max'], 0, 'write', 'a'), ([], 0, 'write', 'hook'), (['max'], 1, 'write', 'hook')]:
+        md = {'name': 'm', 'export': True, 'cmds': [], 'params': [
+            {'name': 'a', 'export': True, 'd': d, 'readonly': False, 'constant': None, 'write': True, 'default': G.tag(1)},
+            {'name': 'b', 'export': True, 'd': d, 'readonly': False, 'constant': None, 'write': False, 'default': G.tag(7)}],
+            'limits': [{'base': 'a', 'postfix': k, 'level': level, 'export': True, 'init': None} for k in lay],
+            'hooks': [{'id': 0, 'param': 'a', 'level': level, 'cond': ['gt', 'b'], 'act': 'range'}] if extra == 'hook' else []}
+        first = {'k': 'req', 'mod': 'm', 'acc': '_a', 'data': G.tag(5), 'drv': ['none']}
+        if extra == 'hook':
+            attr, val = 'b', 3
+        else:
+            attr, val = moves[lay[-1]]
+        if mover == 'req':
+            second = [{'k': 'req', 'mod': 'm', 'acc': '_' + attr, 'data': G.tag(list(val) if isinstance(val, tuple) else val),
+                       'drv': ['none']}]
+        else:
+            second = [{'k': 'write', 'attr': attr, 'value': G.tag(val), 'drv': ['none']}]
+        if extra == 'a':
+            second.append({'k': 'write', 'attr': 'a', 'value': G.tag(1), 'drv': ['none']})
+        yield {'kind': 'conc', 'mod': md, 'threads': [[first], second], 'sched': {'kind': 'explicit', 'decisions': []}}
+
+
+def _explore(base, max_preempt, limit):
+    """all schedules of `base` with at most max_preempt preemptions, discovered by running the real code"""
+    from harness import dsched
+    from frappy.lib import generalConfig
+    from frappy.protocol.interface import handler as hmod
+    out = []
+
+    def run_fn(policy):
+        return _run_conc(dict(base, sched={'kind': 'explicit', 'decisions': list(policy.decisions)}), want_result=True)
+    saved = generalConfig._config
+    generalConfig.testinit(omit_unchanged_within=0)
+    try:
+        with contextlib.redirect_stdout(io.StringIO()):
+            for _prefix, res in dsched.explore(run_fn, max_preempt, limit):
+                if res.status == 'ok':
+                    out.append(dict(base, sched={'kind': 'explicit', 'decisions': list(res.decisions)}))
+    finally:
+        generalConfig._config = saved
+    return out
+
+
+def gen_conc(seed, tier):
+    rng = random.Random(f'C04-conc-{seed}-{tier}')
+    nrand, lim, nchoice = {'quick': (150, 40, 6), 'thorough': (1500, 200, 30), 'search': (600, 200, 30)}[tier]
+    cases = []
+    seen = set()
+    for base in scenario_bases():
+        for c in _explore(base, 1 if tier == 'quick' else 2, lim):
+            key = repr((c['mod'], c['threads'], c['sched']))
+            if key not in seen:
+                seen.add(key)
+                cases.append(c)
+        for _ in range(nchoice):
+            cases.append(dict(base, sched={'kind': 'choices', 'choices': [rng.randrange(3) for _ in range(24)]}))
+    cases += [rand_conc_case(rng) for _ in range(nrand)]
+    return cases
+
+
+def shrink_conc(case):
+    threads = case['threads']
+    if len(threads) > 1:
+        for i in range(len(threads)):
+            yield dict(case, threads=threads[:i] + threads[i + 1:])
+    for i, ops in enumerate(threads):
+        if len(ops) > 1:
+            for j in range(len(ops)):
+                yield dict(case, threads=threads[:i] + [ops[:j] + ops[j + 1:]] + threads[i + 1:])
+    md = case['mod']
+    used = {op.get('attr') for ops in threads for op in ops} | {(op.get('acc') or '').lstrip('_') for ops in threads for op in ops}
+    for i in range(len(md['hooks'])):
+        yield dict(case, mod=dict(md, hooks=md['hooks'][:i] + md['hooks'][i + 1:]))
+    for i, lim in enumerate(md['limits']):
+        if f"{lim['base']}_{lim['postfix']}" not in used:
+            yield dict(case, mod=dict(md, limits=md['limits'][:i] + md['limits'][i + 1:]))
+    sc = case['sched']
+    if sc['kind'] == 'choices':
+        ch = sc['choices']
+        if ch:
+            yield dict(case, sched={'kind': 'choices', 'choices': ch[:len(ch) // 2]})
+            yield dict(case, sched={'kind': 'choices', 'choices': ch[:-1]})
+        for i, c in enumerate(ch):
+            if c:
+                yield dict(case, sched={'kind': 'choices', 'choices': ch[:i] + [0] + ch[i + 1:]})
